@@ -16,6 +16,15 @@ TOK_OV = [{"file": "ring/tokens.go", "rewrite": ['"os"']}]
 RS_OV = [{"file": "ring/replication_set.go", "rewrite": ['"sync"']},
          {"file": "ring/replication_set_tracker.go", "rewrite": ['"sync"', '"go.uber.org/atomic"', '"math/rand"']}]
 
+# select-race part: the same files plus the select seam (vsel) in the main loop of DoUntilQuorum
+RS_OV_SEL = [{"file": "ring/replication_set.go", "rewrite": ['"sync"'], "add_imports": ['"verif/shim/vsel"'],
+          # the main loop's select may find the caller's context done AND a result waiting: which case runs is an
+          # explorer choice (optional seams: without them the harness' cancellation window stays narrow enough)
+          "subst": [["\tfor !resultTracker.succeeded() {\n\t\tselect {\n\t\tcase <-ctx.Done():\n",
+                     "\tfor !resultTracker.succeeded() {\n\t\tvsel.Point(\"loop\")\n\t\tvDone, vRes := ctx.Done(), (<-chan instanceResult[T])(resultsChan)\n\t\tswitch vsel.Two(ctx.Err() != nil, len(resultsChan) > 0) {\n\t\tcase 0:\n\t\t\tvRes = nil\n\t\tcase 1:\n\t\t\tvDone = nil\n\t\t}\n\t\tselect {\n\t\tcase <-vDone:\n", "optional"],
+                    ["\t\tcase result := <-resultsChan:\n\t\t\tresultsRemaining--\n", "\t\tcase result := <-vRes:\n\t\t\tresultsRemaining--\n", "optional"]]},
+         {"file": "ring/replication_set_tracker.go", "rewrite": ['"sync"', '"go.uber.org/atomic"', '"math/rand"']}]
+
 # multi-set part: the in-flight tracker's mutex stays native. Its lock is taken by the per-instance goroutines BEFORE they reach
 # the harness callback that names them, and those goroutines are spawned by two workers running in parallel, so their
 # creation order (the only identity an unnamed goroutine has) is not reproducible.
@@ -46,9 +55,10 @@ CHECKS = {
     "C17": {"parts": [P("single-service", "./c17", "^TestC17Single$", shards={"quick": 8, "thorough": 8}, budget={"quick": 200, "thorough": 1200}, gomaxprocs=1, overlay=SVC_OV),
                       P("manager", "./c17", "^TestC17Manager$", shards={"quick": 6, "thorough": 6}, budget={"quick": 200, "thorough": 1200}, gomaxprocs=1, overlay=SVC_OV),
                       P("idle-timer", "./c17", "^TestC17Timer$", shards={"quick": 2, "thorough": 2}, budget={"quick": 200, "thorough": 900}, gomaxprocs=1, overlay=SVC_OV)]},
-    "C11": {"parts": [P("dountilquorum", "./c11", "^TestC11$", shards={"quick": 12, "thorough": 12}, budget={"quick": 200, "thorough": 1200}, gomaxprocs=1, overlay=RS_OV),
-                      P("multi-set", "./c11", "^TestC11Multi$", shards={"quick": 4, "thorough": 4}, budget={"quick": 200, "thorough": 1200}, gomaxprocs=1, overlay=RS_OV_MULTI),
-                      P("legacy-do", "./c11", "^TestC11Legacy$", shards={"quick": 8, "thorough": 12}, budget={"quick": 200, "thorough": 1200}, gomaxprocs=1, overlay=RS_OV)]},
+    "C11": {"parts": [P("dountilquorum", "./c11", "^TestC11$", shards={"quick": 12, "thorough": 12}, budget={"quick": 300, "thorough": 1200}, gomaxprocs=1, overlay=RS_OV),
+                      P("multi-set", "./c11", "^TestC11Multi$", shards={"quick": 4, "thorough": 4}, budget={"quick": 300, "thorough": 1200}, gomaxprocs=1, overlay=RS_OV_MULTI),
+                      P("select-race", "./c11", "^TestC11SelectRace$", shards={"quick": 8, "thorough": 12}, budget={"quick": 300, "thorough": 1200}, gomaxprocs=1, overlay=RS_OV_SEL),
+                      P("legacy-do", "./c11", "^TestC11Legacy$", shards={"quick": 8, "thorough": 12}, budget={"quick": 300, "thorough": 1200}, gomaxprocs=1, overlay=RS_OV)]},
     "C12": {"parts": [P("instance-shards", "./c12", "^TestC12Instances$"), P("instance-lookback", "./c12", "^TestC12Lookback$"), P("partition-shards", "./c12", "^TestC12Partitions$")]},
     "C13": {"parts": [P("ring-client", "./c13", "^TestC13Ring$"), P("partition-watcher", "./c13", "^TestC13Partitions$"),
                       P("concurrent-readers", "./c13", "^TestC13Concurrent$", shards={"quick": 12, "thorough": 16}, budget={"quick": 200, "thorough": 1200}, gomaxprocs=1,
